@@ -92,6 +92,19 @@ fn generate_case(rng: &mut Rng, sh: Shape) -> Case {
 }
 
 pub fn run(case: &ACase) -> Option<String> {
+    run_mode(case, false)
+}
+
+/// counts_only: only how often each system ran is judged (C04), not when
+pub fn run_mode(case: &ACase, counts_only: bool) -> Option<String> {
+    // every call of a sequence over a well-formed plan returns: the harness systems never panic themselves and borrow nothing
+    match catch_unwind(AssertUnwindSafe(|| run_inner(case, counts_only))) {
+        Ok(r) => r,
+        Err(p) => Some(format!("async dispatcher: a call of the sequence panicked instead of returning: {}", crate::real::panic_msg(p))),
+    }
+}
+
+fn run_inner(case: &ACase, counts_only: bool) -> Option<String> {
     let ctx = Ctx::new();
     let mut b = Builder::new();
     b.add_pool(pool());
@@ -128,6 +141,9 @@ pub fn run(case: &ACase) -> Option<String> {
                 if enters > staged.len() * dispatched || exits + staged.len() < enters.min(staged.len() * dispatched) && false {
                     return Some(format!("{}: more system starts ({}) than {} dispatches of {} systems allow", what, enters, dispatched, staged.len()));
                 }
+                if counts_only {
+                    continue;
+                }
                 if exits < staged.len() * (dispatched - 1) {
                     return Some(format!("{}: returned while systems of the previous dispatch were still unfinished ({} of {} finished)", what, exits, staged.len() * (dispatched - 1)));
                 }
@@ -155,6 +171,9 @@ pub fn run(case: &ACase) -> Option<String> {
                 };
                 let r = d.running();
                 all.extend(ctx.take());
+                if counts_only {
+                    continue;
+                }
                 let done = count(&all, EvK::Exit, &staged) == staged.len() * dispatched;
                 if inside_before && !r && !done {
                     return Some(format!("{}: running() reported false while a system was inside run", what));
@@ -178,6 +197,9 @@ pub fn run(case: &ACase) -> Option<String> {
                     }
                 }
                 all.extend(ctx.take());
+                if counts_only {
+                    continue;
+                }
                 let (enters, exits) = (count(&all, EvK::Enter, &staged), count(&all, EvK::Exit, &staged));
                 if exits != staged.len() * dispatched || enters != exits {
                     return Some(format!("{}: returned although only {} of the {} system runs of the earlier dispatches had finished ({} started)", what, exits, staged.len() * dispatched, enters));
@@ -199,8 +221,17 @@ pub fn run(case: &ACase) -> Option<String> {
     for &u in &staged {
         let n = all.iter().filter(|e| e.uid == u && e.k == EvK::Enter).count();
         if n != dispatched {
-            return Some(format!("system #{} ran {} times over {} dispatches", u, n, dispatched));
+            return Some(format!("async dispatcher: system #{} ran {} times over {} dispatches", u, n, dispatched));
         }
+    }
+    for &u in &tls {
+        let n = all.iter().filter(|e| e.uid == u && e.k == EvK::Enter).count();
+        if n != tl_runs {
+            return Some(format!("async dispatcher: thread-local system #{} ran {} times over {} wait() calls", u, n, tl_runs));
+        }
+    }
+    if counts_only {
+        return None;
     }
     let mut finished = 0usize;
     let mut started = 0usize;
